@@ -279,6 +279,11 @@ def gen_timedelta(rng):
     r = rng.random()
     if r < 0.5:
         return rng.choice(TD_POOL)
+    if r < 0.65:
+        # every component independently zero or not: whole weeks / days / hours / minutes / seconds with or without a sub-second part
+        z = lambda hi: rng.choice([0, 0, rng.randrange(1, hi)])  # noqa: E731
+        return datetime.timedelta(days=rng.choice([0, 7, -7, 14, 364, -21, z(400), -z(400)]), hours=z(24), minutes=z(60), seconds=z(60),
+                                  microseconds=rng.choice([0, 1, 500000, 999999, rng.randrange(10**6)]))
     if r < 0.8:
         return datetime.timedelta(days=rng.randrange(-1000, 1000), seconds=rng.randrange(86400), microseconds=rng.choice([0, rng.randrange(10**6)]))
     return datetime.timedelta(days=rng.randrange(-999999999, 999999999), seconds=rng.randrange(86400), microseconds=rng.randrange(10**6))
